@@ -24,7 +24,7 @@ ASSUMPTIONS = [
     "sunvox_version (the version the file is written as) is drawn too; it is not itself compared after loading (a loaded project carries the library's own version), and for versions before 1.9.5.0 the documented reader rule - module columns of pattern cells are 8 bits - is applied to the expected state",
 ]
 REQUIRED_LABELS = {
-    "quick": ["gap", "clone", "empty_pattern_slot", "name_straddles_32", "links", "freed_link_slot", "cells", "project_fields", "second_stage", "metamodule_nested_2_levels", "project_with_more_than_255_modules"],
+    "quick": ["gap", "clone", "empty_pattern_slot", "name_straddles_32", "links", "freed_link_slot", "cells", "project_fields", "second_stage", "metamodule_nested_2_levels", "project_with_more_than_255_modules", "chunk_payload_of_64KiB_or_more", "macro_multictl_without_name"],
     "thorough": ["gap", "clone", "empty_pattern_slot", "name_straddles_32", "links", "freed_link_slot", "cells", "project_fields", "metamodule", "sampler_with_samples", "unit_changed"]
     + ["type_" + t for t in build.attachable_types()],
 }
@@ -36,7 +36,7 @@ def exhaustive(tier):
 
 def plan(tier):
     n, per = (16, 150) if tier == "quick" else (16, 2500)
-    return [{"kind": "random", "examples": per, "max_modules": 8 if tier == "quick" else 24} for _ in range(n)]
+    return [{"kind": "random", "examples": per, "max_modules": 8 if tier == "quick" else 24, "big_payloads": i == 0} for i in range(n)]
 
 
 def project_labels(spec):
@@ -45,6 +45,10 @@ def project_labels(spec):
         labels |= build.module_labels(ms)
     if spec.get("blank"):
         labels.add("gap")
+    if spec.get("macros"):
+        labels.add("macro_multictl")
+        if any(mc.get("name") is None for mc in spec["macros"]):
+            labels.add("macro_multictl_without_name")
     for ps in spec["patterns"]:
         if ps is None:
             labels.add("empty_pattern_slot")
@@ -106,6 +110,13 @@ def check_project_spec(ctx, spec):
         else:
             layout.append(ms["type"])
     got_layout = [None if m is None else type(m).__name__ for m in p.modules]
+    if spec.get("macros"):
+        # modules the macro helper added take the lowest empty positions / the end like any other module
+        for extra in got_layout[len([x for x in layout]) :] if len(got_layout) > len(layout) else []:
+            layout.append("MultiCtl")
+        for i, t in enumerate(layout):
+            if t is None and i < len(got_layout) and got_layout[i] == "MultiCtl":
+                layout[i] = "MultiCtl"
     if got_layout != layout:
         raise PropertyViolation("C01.positions", "module positions are %r, expected %r" % (got_layout, layout))
     if len(repr(spec)) % 4 == 0 and build.failed_save_in_past(p, len(repr(spec))):
@@ -223,6 +234,10 @@ def run_shard(ctx, desc):
         body(spec)
         ctx.label("project_with_more_than_255_modules")
 
+    if desc.get("big_payloads"):
+        for ms in build.big_payload_module_specs():
+            body({"modules": [ms], "patterns": [], "fields": {}, "links": [["c", 1, 0]]})
+            ctx.label("chunk_payload_of_64KiB_or_more")
     if not run_property(ctx, big(), body_big, 2 if ctx.tier == "quick" else 12, tag="big", bucket="project"):
         return
 
